@@ -158,6 +158,7 @@ type cplan struct {
 	point    string
 	parkSeq  int  // exchange number (0-based) on which to park
 	resClose bool // response Close on the parked exchange
+	proto    int  // the origin's answer to the parked exchange: 0 HTTP/1.1; 1 HTTP/1.0 with Connection: keep-alive (persistent); 2 HTTP/1.0 without it (not persistent)
 	readBody bool // the round tripper / origin reads the parked exchange's request body (an upload still in flight) before it answers
 	fault    int  // origin fault on exchange failSeq: 0 none, 1 connection closed before any answer (refused / reset), 2 truncated response head, 3 timeout
 	failSeq  int  // X-Seq of the exchange whose round trip fails (-1: none)
@@ -538,6 +539,13 @@ func (t rtrip) RoundTrip(req *http.Request) (*http.Response, error) {
 	if sc.plan != nil && sc.plan.parkSeq == i && sc.plan.resClose {
 		rc = true
 	}
+	pv := 0
+	if sc.plan != nil && sc.plan.parkSeq == i {
+		pv = sc.plan.proto
+		if pv == 2 {
+			rc = true // HTTP/1.0 without keep-alive is not persistent: net/http reads it with Close = true
+		}
+	}
 	ctx := req.Context()
 	t.w.log.add("rts:%d", sc.k)
 	if ctx.Err() == nil && sc.plan != nil && sc.plan.parksAt("rt") && sc.plan.parkSeq == i {
@@ -580,6 +588,12 @@ func (t rtrip) RoundTrip(req *http.Request) (*http.Response, error) {
 		ContentLength: int64(len(t.w.body)),
 		Request:       req,
 		Close:         rc,
+	}
+	if pv > 0 {
+		res.Proto, res.ProtoMinor = "HTTP/1.0", 0
+		if pv == 1 && !rc {
+			res.Header.Set("Connection", "keep-alive")
+		}
 	}
 	return res, nil
 }
@@ -688,6 +702,12 @@ func (o *origin) handle(c net.Conn) {
 			}
 		}
 		head := "HTTP/1.1 200 OK\r\nContent-Type: application/octet-stream\r\n"
+		if pl != nil && pl.proto > 0 {
+			head = "HTTP/1.0 200 OK\r\nContent-Type: application/octet-stream\r\n"
+			if pl.proto == 1 && !pl.resClose {
+				head += "Connection: keep-alive\r\n"
+			}
+		}
 		var payload []byte
 		if o.chunked {
 			head += "Transfer-Encoding: chunked\r\n"
@@ -745,7 +765,7 @@ func (o *origin) handle(c net.Conn) {
 		if _, err := c.Write(payload[half:]); err != nil {
 			return
 		}
-		if pl != nil && pl.resClose {
+		if pl != nil && (pl.resClose || pl.proto == 2) {
 			return
 		}
 	}
@@ -1402,6 +1422,7 @@ type scenario struct {
 	tmo    int   // to: the proxy's SetTimeout in ms (0: the harness default of 60 s)
 	park   int   // pk: ms the parked exchanges stay parked after shutdown became observable, before the releases
 	upload []int // u: per connection, the parked exchange's request announces a body and sends only part of it (1 Content-Length, 2 Expect: 100-continue, 3 chunked; +3: the client leaves after the response instead of sending the rest)
+	proto  []int // pv: per connection, protocol version / Connection token of the origin's answer to the parked exchange (0 HTTP/1.1, 1 HTTP/1.0 keep-alive, 2 HTTP/1.0)
 	fault  []int // f: per connection, origin fault on one of its exchanges (0 none, 1 refused/reset, 2 truncated head, 3 timeout)
 	raw    bool // rw=1: the proxy serves the accepted *net.TCPConn itself; only modifiers and clients are observed
 }
@@ -1492,6 +1513,17 @@ func parseScn(op string) (*scenario, bool) {
 				}
 			}
 			sc.upload = v
+		case "pv":
+			v, ok := parseInts(kv[1])
+			if !ok {
+				return nil, false
+			}
+			for _, x := range v {
+				if x > 2 {
+					return nil, false
+				}
+			}
+			sc.proto = v
 		case "f":
 			v, ok := parseInts(kv[1])
 			if !ok {
@@ -1634,6 +1666,25 @@ func parseScn(op string) (*scenario, bool) {
 	if sc.upload == nil {
 		sc.upload = make([]int, n)
 	}
+	if sc.proto == nil {
+		sc.proto = make([]int, n)
+	}
+	if len(sc.proto) != n {
+		return nil, false
+	}
+	for i, v := range sc.proto {
+		if v == 0 {
+			continue
+		}
+		if sc.chunk { // HTTP/1.0 has no chunked coding
+			return nil, false
+		}
+		switch sc.pts[i] {
+		case "reqmod", "rt", "resmod", "write":
+		default:
+			return nil, false
+		}
+	}
 	if len(sc.upload) != n {
 		return nil, false
 	}
@@ -1741,6 +1792,7 @@ func runScenario(sc *scenario) (trace []string, v verdict, counted map[int]bool)
 		if sc.upload[k] >= 7 {
 			plans[k].readBody = true
 		}
+		plans[k].proto = sc.proto[k]
 		if sc.fault[k] > 0 {
 			// which exchange's origin fails: the parked one where there is one (before, in or after its round
 			// trip), else the last warm-up exchange (a 502 already served when shutdown finds the connection idle)
@@ -2540,6 +2592,11 @@ func (e *ex) do(op string) core.Result {
 		if sc.rchunk > 0 {
 			core.Count("slow-reader")
 		}
+		for k, pv := range sc.proto {
+			if pv > 0 {
+				core.Count(fmt.Sprintf("origin-answer-http10:%s:%d", sc.pts[k], pv))
+			}
+		}
 		if sc.hist > 0 {
 			core.Count(fmt.Sprintf("history:%d-conns-%d-exchanges", sc.hist, sc.hexch))
 		}
@@ -3098,6 +3155,57 @@ func timeoutScn(r *core.Rand, quick bool) string {
 	return op + fmt.Sprintf(" to=%d pk=%d", to, to*r.Range(2, 3))
 }
 
+// protoScn: response protocol versions × Connection tokens of the origin's answer in shutdown scenarios: the parked
+// exchange is answered HTTP/1.0 with Connection: keep-alive (persistent, so not yet marked), HTTP/1.0 without it,
+// HTTP/1.1, HTTP/1.1 with Connection: close (s=1) — by the stub (ProtoMajor/Minor, Close) or by the raw origin
+// through the real transport. What the client receives must carry the close marking whenever shutdown was
+// observable at the decision: for HTTP/1.0 that is an explicit `Connection: close` line (net/http writes it next
+// to the origin's `keep-alive`, and every HTTP/1.0 reader then treats the response as the last one).
+func protoScn(r *core.Rand) string {
+	n := r.Range(1, 3)
+	pool := []string{"reqmod", "rt", "resmod", "write", "idle", "head"}
+	pts := make([]string, n)
+	x, q, s, pv := make([]int, n), make([]int, n), make([]int, n), make([]int, n)
+	for i := range pts {
+		pts[i] = pool[r.Intn(len(pool))]
+		if r.Chance(1, 3) {
+			x[i] = r.Range(1, 2)
+		}
+		if r.Chance(1, 6) {
+			q[i] = 1
+		}
+		if r.Chance(1, 5) {
+			s[i] = 1
+		}
+	}
+	pts[r.Intn(n)] = pool[r.Intn(3)]
+	for i := range pts {
+		switch pts[i] {
+		case "reqmod", "rt", "resmod", "write":
+			pv[i] = []int{1, 1, 2, 0}[r.Intn(4)]
+		}
+	}
+	ps := perms(n)
+	op := scnOp(pts, x, q, s, ps[r.Intn(len(ps))], []int{0, 64, 5000, 70000}[r.Intn(4)]) + " pv=" + join(pv)
+	switch r.Intn(4) {
+	case 0:
+		op += fmt.Sprintf(" t=1 te=0 d=%d", []int{0, 500}[r.Intn(2)])
+	case 1:
+		op += " m=1"
+	}
+	return op
+}
+
+func protoGrid(emit func(ops []string)) {
+	for _, p := range []string{"reqmod", "rt", "resmod", "write"} {
+		for pv := 1; pv <= 2; pv++ {
+			op := scnOp([]string{p}, []int{pv - 1}, []int{0}, []int{0}, []int{0}, 64) + fmt.Sprintf(" pv=%d", pv)
+			emit([]string{op})
+			emit([]string{op + " t=1 te=0 d=500"})
+		}
+	}
+}
+
 // slowScn: clients that never stop reading but drain slower than the proxy writes (rk KiB every rp µs), a
 // multi-MiB response, shutdown in the middle of the exchange. raw: the proxy is handed the accepted
 // *net.TCPConn itself (whatever it does to real TCP sockets — socket options at close, linger — happens),
@@ -3334,6 +3442,10 @@ func (P) Gen(r *core.Rand, tier string, emit func(ops []string)) {
 		for i := 0; i < 30; i++ {
 			emit([]string{timeoutScn(r, false)})
 		}
+		protoGrid(emit)
+		for i := 0; i < 400; i++ {
+			emit([]string{protoScn(r)})
+		}
 		inflightGrid(emit)
 		historyGrid(emit)
 		for i := 0; i < 600; i++ {
@@ -3396,6 +3508,10 @@ func (P) Gen(r *core.Rand, tier string, emit func(ops []string)) {
 	}
 	for i := 0; i < 2; i++ {
 		emit([]string{timeoutScn(r, true)})
+	}
+	protoGrid(emit)
+	for i := 0; i < 20; i++ {
+		emit([]string{protoScn(r)})
 	}
 	inflightGrid(emit)
 	historyGrid(emit)
